@@ -79,6 +79,10 @@ CHECKS = {
    "exhaustive crash-point / fault enumeration (every cut offset x terminal answer x placement x trailer presence) over the corpus of valid bodies replayed to the real client/handler",
    "Every body of the corpus is cut at every byte offset 0..len (every offset around prefixes and boundaries for 70 KiB bodies) and ended with a clean EOF, io.ErrUnexpectedEOF or a transport error, delivered on a separate read or together with the last data, with the gRPC HTTP trailers delivered or dropped. A response cut before its terminator (status trailers, gRPC-Web trailer frame, Connect end-of-stream envelope, complete unary body) must fail the call with a coded non-OK error, the delivered messages must be a prefix of those sent, nothing may hang or panic, and the complete body must give the uncut outcome; a request body that failed or stopped inside an envelope must never give the handler a clean end of stream nor be answered OK.",
    "unary Connect bodies cut with a clean EOF are different complete bodies and are not judged; single-request kinds never read past their one envelope, so later failures are unobservable; write-side faults are covered through C14's transport events, not here"),
+ "C17": ("model_checking", "DESIGN.md 4/C17",
+   "bounded exhaustive enumeration of service descriptors (programs) through the built plugin binary, against a reference path/constructor model evaluated on the generated AST, with go/parser and the Go compiler as oracles",
+   "Descriptors over package {absent, single, dotted} x go_package form x service names x method names (incl. all 25 Go keywords capitalised) x 4 streaming kinds x deprecation options x comment shapes x local/imported message types x 1..2 services x 1..3 methods x files without services are fed as CodeGeneratorRequests to the plugin built from /repo's working tree (quick: dimensions varied one or two at a time, 355 descriptors; thorough: plus the full product with 1..2 methods). The plugin must exit 0 without error, be byte-for-byte deterministic, emit Go that go/parser accepts and that type-checks against /repo in a batch build with protoc-gen-go's output, and on the AST every method's mux pattern, Spec procedure and client URL suffix must equal /<fully-qualified service>/<method> with the constructor and Call* matching the streaming kind and the mount prefix /<fully-qualified service>/. The checked-in ping.connect.go must be reproduced byte for byte from the descriptor embedded in ping.pb.go.",
+   "protoc is not installed: descriptors are built programmatically; protoc-gen-go v1.28.0 from the module cache supplies the message types; descriptor space bounded to <= 2 services x <= 3 methods"),
 }
 
 PENDING = {
